@@ -100,6 +100,37 @@ pub fn oracle(s: &ProgScene<X>, t: &Trace) -> Vec<Violation> {
                 });
             }
         }
+        // (1b) a ping that says Ok has been through the mailbox of a running actor: the actor has
+        // started, and whatever had been accepted before the ping began has been handled to its
+        // end by then (a ping that was still queued when the actor died says so)
+        if let (Op::Ping(_), true, Some(pend)) = (op, o.ok(), o.end) {
+            crate::check::oblige("ping-ok-means-picked-up");
+            let started_ok = an.exits.iter().any(|e| e.a == 0 && e.cb == Cb::Started && e.idx < pend) && !matches!(cause, Cause::StartErr | Cause::StartPanic);
+            if !started_ok {
+                out.push(Violation {
+                    clause: "ping-ok-means-picked-up",
+                    key: format!("C02/ping-ok-from-an-actor-that-never-ran/{name}/cause={ck}"),
+                    detail: format!("ping (client {} op {}) returned Ok although the actor never got through started()", o.c, o.i),
+                });
+            }
+            for m in &an.ops {
+                let Some(mop) = op_at(m.c, m.i) else { continue };
+                let (Op::Send(..) | Op::Call(..) | Op::ForceSend(..), Some(id)) = (mop, submitted_id(mop)) else { continue };
+                // accepted before the ping began: a send that returned Ok, or a call that was
+                // begun by the same client earlier (it had returned, one way or the other)
+                let accepted_before = m.end.is_some_and(|e| e < o.begin) && (m.ok() || matches!(mop, Op::Call(..)) && an.enter_of_msg(0, id).first().is_some());
+                if !accepted_before {
+                    continue;
+                }
+                if !an.exit_of_msg(0, id).is_some_and(|x| x.idx < pend) && m.ok() {
+                    out.push(Violation {
+                        clause: "ping-ok-means-picked-up",
+                        key: format!("C02/ping-ok-behind-an-unfinished-message/{name}/cause={ck}"),
+                        detail: format!("ping (client {} op {}) returned Ok although message {id}, accepted before the ping began, was never handled to its end", o.c, o.i),
+                    });
+                }
+            }
+        }
         // (2') ... with a result, not with a panic thrown into the caller
         if o.res == Some(Res::Panicked) {
             out.push(Violation {
@@ -350,6 +381,16 @@ fn plain_cases(tier: Tier) -> Vec<Case> {
             }
         }
     }
+    // a ping as a client's *first* operation: it may be in the mailbox, unanswered, at the moment
+    // the actor dies of any cause - and must then say so
+    for &mb in mbs {
+        for &cause in &causes {
+            let resolver = resolvers_for(cause)[0];
+            v.push(make_case(&[vec![L::Ping, L::CallAddr], vec![L::CallCal]], cause, resolver, mb, None));
+            v.push(make_case(&[vec![L::CallAddr], vec![L::Ping]], cause, resolver, mb, None));
+            v.push(make_case(&[vec![L::SendAddr, L::Ping], vec![L::Ping]], cause, resolver, mb, None));
+        }
+    }
     if tier == Tier::Thorough {
         // three calling clients; pairs of causes (a client stop racing with a failure)
         for &mb in mbs {
@@ -401,7 +442,7 @@ pub fn property() -> Property {
     Property {
         id: "C02",
         cases,
-        clauses: &["own-response", "resolves-after-termination", "error-after-termination", "await-yields-termination-result", "join-none-on-failure", "join-some-on-graceful", "mailbox-gets-its-turn"],
+        clauses: &["own-response", "resolves-after-termination", "error-after-termination", "await-yields-termination-result", "join-none-on-failure", "join-some-on-graceful", "mailbox-gets-its-turn", "ping-ok-means-picked-up"],
         full_rerun_check: true,
         assumptions: &[
             "termination = the step in which the actor task ends; graceful = it ended without cancellation after stopped() finished",
